@@ -89,6 +89,25 @@ def small_program(r):
             ops.append(('OAddRequired', N(i), ('ArgW', ('WPlain', N(1))), dyn, Z(0 if dyn else 1), Z(0 if dyn else 1)))
             ops.append(('OAddRequired', N(i), ('ArgW', ('WPlain', N(2))), False, Z(0), Z(0)))
         return ops
+    if r.random() < 0.2:
+        # work amounts: an optional task and a mandatory one, each on its own worker, each with a work amount that decides its
+        # duration; the work of one task is its own business, whatever the order of declaration (small horizon: the
+        # schedules can be enumerated completely)
+        h = r.choice([4, 5])
+        ops = [('ONewProblem', terms.optZ(h))]
+        order = [1, 2] + ([3] if r.random() < 0.4 else [])
+        r.shuffle(order)
+        spec = {1: (True, 2), 2: (False, r.choice([3, 4, 5])), 3: (r.random() < 0.5, r.choice([0, 2]))}
+        for i in order:
+            opt, work = spec[i]
+            ops.append(('ONewTask', N(i), ('KVar', Z(1), terms.optZ(h), None), opt, Z(work), None, None, False, Z(1)))
+        for w in sorted(order):
+            ops.append(('ONewWorker', N(w), Z(1), ('CostConst', Z(0))))
+        for i in sorted(order):
+            ops.append(('OAddRequired', N(i), ('ArgW', ('WPlain', N(i))), False, Z(0), Z(0)))
+        if r.random() < 0.5:
+            ops.append(('ONewConstraint', N(1), False, ('CForceSched', N(1), True)))
+        return ops
     ops = [('ONewProblem', terms.optZ(hz))]
     nt = r.randint(2, 3)
     for i in range(1, nt + 1):
@@ -313,9 +332,15 @@ def observe_case(args):
         for nm in ADVERSARIAL:
             v = observe_variant(prog, ADVERSARIAL[nm])
             out['diffs'] += [(('adversarial_' + w), a, b, nm) for (w, a, b, _) in semantic(v, 'names')]
-        # (iii) declaration order
-        for _ in range(2):
-            p2, kind = permute_declarations(r, prog)
+        # (iii) declaration order: the tasks in reverse order, then two random permutations of one kind of declaration
+        tidx = [i for i, o in enumerate(prog) if o[0] == 'ONewTask']
+        rev = list(prog)
+        for dst, src in zip(tidx, reversed(tidx)):
+            rev[dst] = prog[src]
+        for k3 in range(3):
+            p2, kind = (rev, 'ONewTask reversed') if k3 == 0 else permute_declarations(r, prog)
+            if k3 == 0 and len(tidx) < 2:
+                continue
             if p2 is None:
                 continue
             v = observe_variant(p2, NAMINGS['plain'])
